@@ -194,6 +194,18 @@ def check_roundtrip(rep, spec, base):
         rep.add("SWCLike.to_swc", "operation-raises", spec, f"{type(e).__name__}: {e}", "no exception")
         return
 
+    # history clause (C01: "nothing is added to them but the writer's optional source header" must also hold for the
+    # SECOND export of the same tree object): exporting leaves the tree's own comment list as it was, and writing again
+    # with the same options yields the same text
+    if list(t.comments) != list(spec.get("comments") or []):
+        rep.add("SWCLike.to_swc", "export-leaves-the-tree-comments-untouched", spec, list(t.comments), list(spec.get("comments") or []))
+    try:
+        again = t.to_swc(**kw)
+        if again != text:
+            rep.add("SWCLike.to_swc", "second-export-writes-the-same-text", spec, again[:200], text[:200])
+    except Exception as e:
+        rep.add("SWCLike.to_swc", "operation-raises", spec, f"second export: {type(e).__name__}: {e}", "no exception")
+
     text_ok = _check_written_text(rep, spec, text)
     text_bad = _check_written_rows(rep, spec, text, x32)  # clauses the text itself already violates (charged to the writer)
 
